@@ -480,9 +480,21 @@ class Exec:
             bad.pc.append("(not %s)" % c)
             bad.outcome = ("panic", m.group(3))
             return [(ok, m.group(4)), (bad, None)]
-        m = re.fullmatch(r"(?:(.+?) = )?(.+?)\((.*)\) -> (?:\[return: (bb\d+), .*\]|unwind .*|bb\d+);", t)
+        m = re.fullmatch(r"(?:(_\d+|\(.+?\)|\*_\d+) = )?(.+\)) -> (?:\[return: (bb\d+), .*\]|unwind .*|bb\d+);", t)
         if m:
-            lhs, callee, args, ret = m.group(1), m.group(2).strip(), m.group(3), m.group(4)
+            # `callee(args)`: the argument list is the last balanced parenthesis group (generic arguments of the callee
+            # may contain parentheses themselves: `Option::<unsafe fn(*mut u8, usize)>::is_some(move _8)`)
+            lhs, call, ret = m.group(1), m.group(2), m.group(3)
+            depth, k = 0, len(call) - 1
+            while k >= 0:
+                if call[k] == ")":
+                    depth += 1
+                elif call[k] == "(":
+                    depth -= 1
+                    if depth == 0:
+                        break
+                k -= 1
+            callee, args = call[:k].strip(), call[k + 1:-1]
             argv = [self.operand(p, a) for a in split_top(args)] if args.strip() else []
             for pat, h in self.summaries:
                 if re.search(pat, callee):
@@ -621,6 +633,78 @@ def s_unwrap(ex, p, callee, argv, lhs):
     v = ex.read_cell(p, o[1], o[2] + (("as", "Some"), 0), "usize")
     ex.set_ret(p, lhs, v)
     return [p, none]
+
+
+def s_abs_diff(ex, p, callee, argv, lhs):
+    a, b = ex.as_bv(argv[0]), ex.as_bv(argv[1])
+    ex.set_ret(p, lhs, ("bv", "(ite (bvult %s %s) (bvsub %s %s) (bvsub %s %s))" % (a[1], b[1], b[1], a[1], a[1], b[1]), a[2]))
+
+
+def s_leading_zeros(ex, p, callee, argv, lhs):
+    a = ex.as_bv(argv[0])
+    w = a[2]
+    e = bvconst(w, 32)
+    for i in range(w):
+        e = "(ite (= ((_ extract %d %d) %s) #b1) %s %s)" % (i, i, a[1], bvconst(w - 1 - i, 32), e)
+    ex.set_ret(p, lhs, ("bv", e, 32))
+
+
+def s_unwrap_or(ex, p, callee, argv, lhs):
+    o = argv[0]
+    if o[0] != "agg":
+        raise Unsupported("unwrap_or of non-aggregate")
+    d = ex.read_cell(p, o[1], o[2] + ("discr",), "isize")
+    v = ex.as_bv(ex.read_cell(p, o[1], o[2] + (("as", "Some"), 0), "usize"))
+    dflt = ex.as_bv(argv[1]) if len(argv) > 1 else ("bv", bvconst(0, v[2]), v[2])
+    ex.set_ret(p, lhs, ("bv", "(ite (= %s %s) %s %s)" % (d[1], bvconst(0), dflt[1], v[1]), v[2]))
+
+
+def s_overflowing(op):
+    def h(ex, p, callee, argv, lhs):
+        a, b = ex.as_bv(argv[0]), ex.as_bv(argv[1])
+        w = a[2]
+        x, y = a[1], b[1]
+        if op == "add":
+            res, ovf = "(bvadd %s %s)" % (x, y), "(bvult (bvadd %s %s) %s)" % (x, y, x)
+        elif op == "sub":
+            res, ovf = "(bvsub %s %s)" % (x, y), "(bvult %s %s)" % (x, y)
+        else:
+            res = "(bvmul %s %s)" % (x, y)
+            ovf = "(not (= ((_ extract %d %d) (bvmul ((_ zero_extend %d) %s) ((_ zero_extend %d) %s))) %s))" % (2 * w - 1, w, w, x, w, y, bvconst(0, w))
+        r, pa, _ = ex.place(p, parse_place(lhs))
+        ex.write(p, r, pa + (0,), ("bv", res, w))
+        ex.write(p, r, pa + (1,), ("bool", ovf))
+    return h
+
+
+def s_mem_replace(ex, p, callee, argv, lhs):
+    """core::mem::replace::<scalar>(&mut place, new) -> old"""
+    d = argv[0]
+    if d[0] != "ref":
+        raise Unsupported("mem::replace on a non-reference")
+    old = ex.read_cell(p, d[1], d[2], "usize")
+    ex.write(p, d[1], d[2], argv[1])
+    ex.set_ret(p, lhs, old)
+
+
+def s_mem_swap(ex, p, callee, argv, lhs):
+    a, b = argv
+    if a[0] != "ref" or b[0] != "ref":
+        raise Unsupported("mem::swap on non-references")
+    va, vb = ex.read_cell(p, a[1], a[2], "usize"), ex.read_cell(p, b[1], b[2], "usize")
+    ex.write(p, a[1], a[2], vb)
+    ex.write(p, b[1], b[2], va)
+
+
+def s_is_some(pos):
+    def h(ex, p, callee, argv, lhs):
+        o = argv[0]
+        if o[0] not in ("agg", "ref"):
+            raise Unsupported("is_some of non-aggregate")
+        d = ex.read_cell(p, o[1], o[2] + ("discr",), "isize")
+        t = "(not (= %s %s))" % (d[1], bvconst(0))
+        ex.set_ret(p, lhs, ("bool", t if pos else "(not %s)" % t))
+    return h
 
 
 def s_bound(which):
@@ -766,6 +850,14 @@ SUMMARIES = [
     (r"<impl usize>::checked_mul$", s_checked("mul")),
     (r"<impl usize>::checked_add$", s_checked("add")),
     (r"<impl usize>::checked_sub$", s_checked("sub")),
+    (r"<usize as (core::cmp::)?Ord>::max$|<impl usize>::max$", s_minmax("max")),
+    (r"<usize as (core::cmp::)?Ord>::min$|<impl usize>::min$", s_minmax("min")),
+    (r"<impl usize>::abs_diff$", s_abs_diff),
+    (r"<impl usize>::leading_zeros$", s_leading_zeros),
+    (r"<impl usize>::overflowing_add$", s_overflowing("add")),
+    (r"<impl usize>::overflowing_sub$", s_overflowing("sub")),
+    (r"<impl usize>::overflowing_mul$", s_overflowing("mul")),
+    (r"Option::<usize>::unwrap_or$|Option::<usize>::unwrap_or_default$", s_unwrap_or),
     (r"<impl usize>::saturating_add$", s_arith("saturating_add")),
     (r"<impl usize>::saturating_sub$", s_arith("saturating_sub")),
     (r"<impl usize>::saturating_mul$", s_arith("saturating_mul")),
@@ -773,6 +865,10 @@ SUMMARIES = [
     (r"<impl usize>::wrapping_sub$", s_arith("wrapping_sub")),
     (r"<impl usize>::wrapping_mul$", s_arith("wrapping_mul")),
     (r"Option::<.*>::unwrap$|Option::<.*>::expect$", s_unwrap),
+    (r"mem::replace::<(usize|isize|u8|u16|u32|u64|bool)>$", s_mem_replace),
+    (r"mem::swap::<(usize|isize|u8|u16|u32|u64|bool)>$", s_mem_swap),
+    (r"Option::<.*>::is_some$", s_is_some(True)),
+    (r"Option::<.*>::is_none$", s_is_some(False)),
     (r"RangeBounds<usize>>::start_bound$", s_bound("start_bound")),
     (r"RangeBounds<usize>>::end_bound$", s_bound("end_bound")),
     (r"alloc::alloc$", s_alloc("alloc")),
